@@ -400,3 +400,85 @@ package core
 //@   call Upload#1 bind ue = $ret1
 //@   call uploadDescriptor#1 assert [after-lists] ue_set && ue == nil
 //@   ensures [done-refused] old(s.SplitDescriptor.State) == model.SplitDone ==> ret0 != nil
+
+// ---- purge (C13, C14). Sequential contracts on the functions that decide what is indexed and what
+// is deleted; histories (interrupt/resume, interleaved uploads) are not decided, see DESIGN.md. -------
+//@ spec func kvComplete(Iface, Str) Bool
+
+// a blob is deleted only when it is absent from the index, its age is known, it is not more recent
+// than the index, and this is not a dry run
+//@ func checkAndDeleteKey
+//@   call Exists#1 bind found = $ret0
+//@   call Exists#1 bind ferr = $ret1
+//@   call Retry#1 bind aerr = $ret0
+//@   call Before#1 assert [age-of-this-blob] $0 == indexTime && $1 == attrs.Updated
+//@   call Before#1 bind recent = $ret0
+//@   call Retry#2 assert [delete-only-unindexed-old] found_set && !found && ferr == nil && aerr_set && aerr == nil && recent_set && !recent && !dryRun
+
+// the attribute read reports its own failure to the retry loop (was finding F13, repaired by 7f06dac)
+//@ func checkAndDeleteKey$1
+//@   call GetAttr#1 assert [of-key] $key == key
+//@   call GetAttr#1 bind ge = $ret1
+//@   call Is#1 assert [not-exists-only] $0 == ge && $1 == iface(storagestatus.ErrNotExists)
+//@   call Is#1 bind gone = $ret0
+//@   ensures [failure-retried] ge_set && gone_set && !gone ==> result == ge
+
+//@ func checkAndDeleteKey$2
+//@   call Delete#1 assert [of-key] $key == key
+
+//@ func scanBlob$2$1
+//@   call checkAndDeleteKey#1 assert [against-index] $indexTime == indexTime && $db == db && $blob == blob && $dryRun == dryRun && $key == key
+
+// delete-unused compares blob ages with the creation time recorded in the index chunks
+//@ func PurgeDeleteUnused
+//@   call copyIndexChunks#1 bind it = $ret0
+//@   call copyIndexChunks#1 bind db0 = $db
+//@   call scanBlob#1 assert [age-against-index-time] it_set && $indexTime == deref(it) && $db == db0 && $blob == getBlobStore(stores) && $dryRun == options.dryRun
+
+// resuming keeps the creation time of the original index
+//@ func PurgeBuildReverseIndex
+//@   call preloadIndexFiles#1 bind ts = $ret2
+//@   call uploader#1 assert [resumed-index-keeps-its-time] ts_set ==> $indexTime == deref(ts)
+
+// index chunks: every chunk written by one run gets an index not used before by this run nor by the
+// run it resumes
+//@ func uploader$1
+//@   ghost start = options.indexStart
+//@   call chunkUploader#1 bind used1 = $chunkIndex
+//@   call chunkUploader#2 bind used2 = $chunkIndex
+//@   loop 1 invariant chunkIndex >= start && (used1_set ==> chunkIndex >= used1)
+//@   call chunkUploader#1 assert [fresh-chunk-index] $chunkIndex > start && (used1_set ==> $chunkIndex > used1)
+//@   loop 2 invariant chunkIndex >= start && (used1_set ==> chunkIndex >= used1) && (used2_set ==> chunkIndex >= used2)
+//@   call chunkUploader#2 assert [fresh-chunk-index] $chunkIndex > start && (used1_set ==> $chunkIndex > used1) && (used2_set ==> $chunkIndex > used2)
+//@   call chunkUploader#2 assert [same-index] $indexStore == indexStore && $indexTime == indexTime && $db == db && $chunkSize == chunkSize
+
+//@ func chunkUploader$1$1
+//@   call ReverseIndexFile#1 assert [chunk-file] $chunk == chunkIndex
+//@   call ReverseIndexFile#1 bind file = $ret0
+//@   call newDBReader#1 assert [bounded-chunk] $maxKeys == chunkSize && $indexTime == indexTime && $db == db
+//@   call Delete#1 assert [chunk-file] file_set && $key == file
+//@   call Put#1 assert [chunk-file-created] file_set && $key == file && $noOverwrite == storage.NoOverWrite
+
+// streaming a key into a chunk must not record it as uploaded: the chunk write may still fail
+// (known finding K12: the key is marked inside Read)
+//@ func (*dbReader).Read
+//@   call Set#1 bind marked = $1
+//@   ensures [streaming-does-not-mark] !marked_set
+
+// resumed builds: the last chunk index found is the largest one
+//@ func copyIndexChunks
+//@   loop 2 step [last-index-is-max] lastIndex >= prev(lastIndex) && lastIndex >= index
+
+//@ func copyIndexChunks$1
+//@   call KeysPrefix#1 assert [index-chunks-only] $prefix == model.ReverseIndexPrefix()
+
+// keys of a bundle: the root key, then its leaves; a root already in the KV is skipped with its
+// leaves, which needs the KV to hold those leaves (known finding K13: not so after a resume)
+//@ func bundleKeys
+//@   call Exists#1 bind known = $ret0
+//@   call LeavesForHash#1 assert [leaves-of-root] $root == root && $leafSize == size
+//@   loop 1 step [skipped-root-has-its-leaves-indexed] known_set && known ==> kvComplete(iface(db), key)
+
+// the purge lock is created if absent unless forced
+//@ func PurgeLock
+//@   call Put#1 assert [lock-create-if-absent-unless-forced] $key == model.PurgeLock() && ($noOverwrite <==> !options.force)
